@@ -165,9 +165,19 @@ class C07(Check):
             rules.append(('rule', 'A2', None, ('ref', 'A1')))
             rules.append(('rule', 'ViaAlias', None, ('choice', [('seq', [('ref', 'A1'), ('lit', '!')]), ('seq', [('ref', 'R0'), ('lit', '?')]),
                                                                 ('seq', [('expect', ('ref', 'A2')), ('ref', 'R0'), ('opt', ('ref', 'A1'))])])))
+            # a rule handed to a parameterised rule as an argument, referenced again at the same place
+            rules.append(('rule', 'Wrap', ['x'], ('seq', [('ref', 'x')])))
+            wr = ('call', 'Wrap', [('ref', 'R0')], [])
+            rules.append(('rule', 'ViaTemplate', None, ('choice', [('seq', [wr, ('lit', '!')]), ('seq', [wr, ('lit', '?')]),
+                                                                   ('seq', [('expect', wr), ('ref', 'R0'), ('opt', ('call', 'Wrap', [], [('x', ('ref', 'R0'))]))])])))
             rules.append(('rule', 'start', None, ('choice', [('seq', [('ref', 'R0'), ('ref', 'R1'), ('lit', 'Z')]),
                                                              ('seq', [('ref', 'R0'), ('ref', 'R1'), ('opt', ('ref', 'R2'))])])))
             g2 = g.copy(rules=rules)
+            named = None
+            if data.draw(st.booleans()):
+                named = sut.fresh_name('vfc07_')
+                g2 = g2.copy(header=named)
+                res.hist['named'] += 1
             exclude = ()
             if with_ignore:
                 g2 = g2.copy(ignores=[(None, ('lit', ' '))])
@@ -185,7 +195,7 @@ class C07(Check):
                 return
             res.hist['grammars'] += 1
             pg = {'same': lambda pair: [True, pair[1]]}
-            for name in ('start', 'Alt', 'ViaAlias', 'TwiceL', 'TwiceK', 'R0'):
+            for name in ('start', 'Alt', 'ViaAlias', 'ViaTemplate', 'TwiceL', 'TwiceK', 'R0'):
                 hang = False
                 for t in inputs:
                     bad, got, raw = self.run_one(res, g2, gi, mod, name, t, 'hyp', exclude)
@@ -201,6 +211,8 @@ class C07(Check):
                         break
                 if hang:
                     break
+            if named:
+                sut.forget(named)
         try:
             prop()
         except runner.StopTask:
